@@ -78,7 +78,7 @@ def run(ctx):
             ctx.check(inner in S and S.contains_point(inner, False), "inner point not contained", desc)
             ctx.check((ce[0] + 3 * size, ce[1] + size) not in S, "far point contained", desc)
         # regular polygons
-        ns = rng.randint(3, 12)
+        ns = rng.randint(3, 12) if rng.random() < 0.6 else rng.choice([13, 17, 24, 31, 48, 61, 64, 97, 122, 128, 197, 244, 256, 343, 345, 360, 500])
         rad = size
         S = Primitive.regular_polygon(ns, radius=rad, **({} if c is None else {"center": c}))
         got = [tuple(v) for v in S.jordans[0].vertices]
